@@ -826,6 +826,16 @@ func (x *Exec) trCall(e *Expr, env *Env) (Term, error) {
 				return tBool(app("uf_re_compiles", args[0].S)), nil
 			}
 			return Term{}, fmt.Errorf("bad arguments to %s", callee.Name)
+		case "trimSuffix":
+			args, err := trArgs()
+			if err != nil {
+				return Term{}, err
+			}
+			if len(args) != 2 || args[0].Sort != SStr || args[1].Sort != SStr {
+				return Term{}, fmt.Errorf("trimSuffix(s, suffix) needs two strings")
+			}
+			x.vc.declFun("uf_strings_TrimSuffix_0", []string{SStr, SStr}, SStr)
+			return Term{S: app("uf_strings_TrimSuffix_0", args[0].S, args[1].S), Sort: SStr, T: types.Typ[types.String]}, nil
 		case "sameArray":
 			args, err := trArgs()
 			if err != nil {
@@ -913,6 +923,11 @@ func (x *Exec) trCall(e *Expr, env *Env) (Term, error) {
 					if x.ss.sortOf(t) == a.Sort {
 						a.T = t
 						return a, nil
+					}
+					if a.Sort == SSlice && x.ss.sortOf(t) == SStr && a.T != nil {
+						if sl, ok := types.Unalias(a.T).Underlying().(*types.Slice); ok {
+							return x.bytesToString(nil, env.state(), a, sl.Elem()), nil
+						}
 					}
 					if a.Sort == SInt && x.ss.sortOf(t) == SReal {
 						return Term{S: app("to_real", a.S), Sort: SReal, T: t}, nil
